@@ -1,7 +1,9 @@
 """C19 — configuration sources agree and binds parse to the intended sockets."""
 from __future__ import annotations
 
+import contextlib
 import importlib
+import io
 import os
 import shutil
 import socket
@@ -34,17 +36,17 @@ KEYS = {
     "alpn_protocols": ("strlist", None), "alt_svc_headers": ("strlist", None), "backlog": ("int", "--backlog"),
     "ca_certs": ("str", "--ca-certs"), "certfile": ("str", "--certfile"), "ciphers": ("str", "--ciphers"),
     "debug": ("bool", "--debug"), "dogstatsd_tags": ("str", None), "errorlog": ("str", "--error-logfile"),
-    "graceful_timeout": ("int", "--graceful-timeout"), "read_timeout": ("int", "--read-timeout"), "group": ("int", "--group"),
+    "graceful_timeout": ("num", "--graceful-timeout"), "read_timeout": ("int", "--read-timeout"), "group": ("int", "--group"),
     "h11_max_incomplete_size": ("int", None), "h11_pass_raw_headers": ("bool", None), "h2_max_concurrent_streams": ("int", None),
     "h2_max_header_list_size": ("int", None), "h2_max_inbound_frame_size": ("int", None), "include_date_header": ("bool", None),
-    "include_server_header": ("bool", None), "keep_alive_timeout": ("int", "--keep-alive"), "keep_alive_max_requests": ("int", None),
+    "include_server_header": ("bool", None), "keep_alive_timeout": ("num", "--keep-alive"), "keep_alive_max_requests": ("int", None),
     "keyfile": ("str", "--keyfile"), "keyfile_password": ("str", "--keyfile-password"), "logconfig": ("str", "--log-config"),
     "loglevel": ("str", "--log-level"), "max_app_queue_size": ("int", None), "max_requests": ("int", "--max-requests"),
     "max_requests_jitter": ("int", "--max-requests-jitter"), "pid_path": ("str", "--pid"), "server_names": ("strlist", "--server-name"),
-    "shutdown_timeout": ("int", None), "ssl_handshake_timeout": ("int", None), "startup_timeout": ("int", None),
+    "shutdown_timeout": ("num", None), "ssl_handshake_timeout": ("num", None), "startup_timeout": ("num", None),
     "statsd_host": ("str", "--statsd-host"), "statsd_prefix": ("str", "--statsd-prefix"), "umask": ("int", "--umask"),
     "use_reloader": ("bool", "--reload"), "user": ("int", "--user"), "websocket_max_message_size": ("int", None),
-    "websocket_ping_interval": ("int", "--websocket-ping-interval"), "worker_class": ("str", "--worker-class"), "workers": ("int", "--workers"),
+    "websocket_ping_interval": ("num", "--websocket-ping-interval"), "worker_class": ("str", "--worker-class"), "workers": ("int", "--workers"),
     "wsgi_max_body_size": ("int", None), "bind": ("strlist", "--bind"), "insecure_bind": ("strlist", "--insecure-bind"),
     "quic_bind": ("strlist", "--quic-bind"), "root_path": ("str", "--root-path"),
 }
@@ -58,6 +60,8 @@ def snapshot(cfg):
             v = getattr(cfg, k)
         except AttributeError:
             v = "<unset>"
+        if isinstance(v, float) and v.is_integer():
+            v = int(v)  # 5 and 5.0 seconds are the same setting
         out[k] = repr(v)
     return out
 
@@ -65,6 +69,9 @@ def snapshot(cfg):
 def _value(rng, tag, i):
     if tag == "int":
         return rng.choice([0, 1, 2, 7, 100, 65536, 12345])
+    if tag == "num":
+        # durations in seconds (annotated float in Config): whole and fractional
+        return rng.choice([0, 1, 7, 100, 0.5, 2.5, 0.25, 12.75])
     if tag == "bool":
         return True
     if tag == "str":
@@ -82,7 +89,7 @@ def gen(rng, tier):
     for key, (tag, flag) in KEYS.items():
         for i in range(reps):
             n += 1
-            yield {"family": "loaders", "kind": "loaders", "key": key, "value": _value(rng, tag, n), "tag": tag, "flag": flag}
+            yield {"family": "loaders", "kind": "loaders", "key": key, "value": _value(rng, tag, n), "tag": tag, "flag": flag, "n": n}
     flags = [(k, v) for k, v in KEYS.items() if v[1]]
     for key, (tag, flag) in flags:
         n += 1
@@ -136,8 +143,8 @@ def gen(rng, tier):
 def _toml_value(v):
     if isinstance(v, bool):
         return "true" if v else "false"
-    if isinstance(v, int):
-        return str(v)
+    if isinstance(v, (int, float)):
+        return repr(v)
     if isinstance(v, str):
         return '"%s"' % v.replace("\\", "\\\\").replace('"', '\\"')
     return "[" + ", ".join(_toml_value(x) for x in v) + "]"
@@ -222,18 +229,26 @@ def run_one(case, tally):
             finally:
                 sys.path.remove(tmp)
                 sys.modules.pop(modname, None)
-            pyf = os.path.join(tmp, "conf.py")
+            # a Python file is what holds Python source, whatever it is called (hypercorn.conf, settings.cfg ...)
+            pyf = os.path.join(tmp, "conf" + [".py", ".py", ".conf", ".cfg", ""][case.get("n", 0) % 5])
             with open(pyf, "w") as f:
                 f.write("%s = %r\n" % (key, value))
-            snaps["pyfile"] = snapshot(Config.from_pyfile(pyf))
+            try:
+                snaps["pyfile"] = snapshot(Config.from_pyfile(pyf))
+            except Exception as e:
+                snaps["pyfile"] = "raised %s for %s" % (type(e).__name__, os.path.basename(pyf))
             tf = os.path.join(tmp, "conf.toml")
             with open(tf, "w") as f:
                 f.write("%s = %s\n" % (key, _toml_value(value)))
             snaps["toml"] = snapshot(Config.from_toml(tf))
             base = _run_main(["app:app"])
             if case["flag"]:
-                cli = snapshot(_run_main(["app:app"] + _cli_args(case["flag"], case["tag"], value)))
-                cli["application_path"] = snaps["mapping"]["application_path"]
+                try:
+                    with contextlib.redirect_stderr(io.StringIO()):
+                        cli = snapshot(_run_main(["app:app"] + _cli_args(case["flag"], case["tag"], value)))
+                    cli["application_path"] = snaps["mapping"]["application_path"]
+                except SystemExit:
+                    cli = "rejected by the argument parser"
                 snaps["cli"] = cli
             tally.clause("loaders-agree")
             exp = repr(_expected_attr(key, case["tag"], value))
@@ -291,10 +306,25 @@ def run_one(case, tally):
             for key, tag, flag, value in case["flags"]:
                 argv += _cli_args(flag, tag, value)
                 expect[key] = repr(_expected_attr(key, tag, value))
-            got = snapshot(_run_main(argv))
+            try:
+                with contextlib.redirect_stderr(io.StringIO()):
+                    got = snapshot(_run_main(argv))
+            except SystemExit:
+                got = None
             tally.clause("cli-delta")
-            diff = {k: (expect[k], got[k]) for k in expect if expect[k] != got[k]}
-            if diff:
+            diff = {k: (expect[k], got[k]) for k in expect if expect[k] != got[k]} if got else {}
+            if got is None:
+                # say which flag: each alone
+                bad = []
+                for key, tag, flag, value in case["flags"]:
+                    try:
+                        with contextlib.redirect_stderr(io.StringIO()):
+                            _run_main(["app:app"] + _cli_args(flag, tag, value))
+                    except SystemExit:
+                        bad.append((flag, value))
+                findings.append({"clause": "cli-delta", "sig": "C19.cli-rejects/%s" % (bad[0][0].lstrip("-") if bad else "combination"),
+                                 "detail": "argv %r rejected by the argument parser (%r); the same value is taken from a mapping or a file" % (argv, bad)})
+            elif diff:
                 k0 = sorted(diff)[0]
                 fl = "+".join(f[2] for f in case["flags"])
                 # name the flag that is responsible: the one whose own attribute is wrong, else the first
@@ -307,10 +337,17 @@ def run_one(case, tally):
             with open(tf, "w") as f:
                 f.write("%s = %s\n" % (key, _toml_value(value)))
             ok, tg, ofl, oval = case["other"]
-            got = snapshot(_run_main(["app:app", "-c", tf] + _cli_args(ofl, tg, oval)))
+            try:
+                with contextlib.redirect_stderr(io.StringIO()):
+                    got = snapshot(_run_main(["app:app", "-c", tf] + _cli_args(ofl, tg, oval)))
+            except SystemExit:
+                got = None
             tally.clause("cli-keeps-file")
             exp = repr(_expected_attr(key, case["tag"], value))
-            if got[key] != exp:
+            if got is None:
+                findings.append({"clause": "cli-keeps-file", "sig": "C19.cli-rejects/%s" % ofl.lstrip("-"),
+                                 "detail": "%s %r rejected by the argument parser" % (ofl, oval)})
+            elif got[key] != exp:
                 findings.append({"clause": "cli-keeps-file", "sig": "C19.cli-overrides-file/%s" % key,
                                  "detail": "config file sets %s=%r; command line with only %s given: %s is now %s" % (key, value, ofl, key, got[key])})
         elif kind == "bind":
